@@ -17,6 +17,9 @@
    Variants:
      "notify_while_small"  signal's loop runs while value <= n instead of value >= 0 (seeded change
                            C08-1): with a large counter no waiter is notified
+     "timed_take_without_recheck"  a timed waiter that was woken by a release takes a permit without
+                           re-testing the count (seeded change C08-2): with a competing acquirer the
+                           count goes negative
      "timed_false_after_signal"  wait_until returns false whenever the wait did not report `timeout`
                            ... inverted test of the pinned tree (repaired defect): a signalled timed
                            acquire reports failure and leaves the permit                            *)
@@ -57,11 +60,16 @@ Rewait(t) ==
     /\ queue' = Without(queue, t)
     /\ LET timeout == ~popped[t]
            fail == IF Variant = "timed_false_after_signal" THEN ~timeout ELSE (timeout /\ value < 1)
-       IN IF t \in Timed /\ fail
+           blind == Variant = "timed_take_without_recheck" /\ t \in Timed /\ ~timeout
+       IN IF blind
+             THEN /\ res' = [res EXCEPT ![t] = "true"] /\ il' = None /\ Goto(t, "done")
+                  /\ value' = value - 1 /\ acquired' = acquired + 1
+                  /\ UNCHANGED <<popped, token, todo, badFalse>>
+          ELSE IF t \in Timed /\ fail
              THEN /\ res' = [res EXCEPT ![t] = "false"] /\ il' = None /\ Goto(t, "done")
                   /\ badFalse' = (badFalse \/ value >= 1)      \* failure reported although a permit is there
-             ELSE Goto(t, "check") /\ UNCHANGED <<res, il, badFalse>>
-    /\ UNCHANGED <<value, popped, token, todo, acquired>>
+                  /\ UNCHANGED <<value, popped, token, todo, acquired>>
+             ELSE Goto(t, "check") /\ UNCHANGED <<res, il, badFalse, value, popped, token, todo, acquired>>
 (* ---- releasers ---- *)
 Add(r) ==
     /\ pc[r] = "add" /\ il = r
